@@ -86,6 +86,19 @@ CHECKS = {
              'caching is checked as a snapshot.',
         note='Accesses form a sequence (concurrency only inside one prefetch iteration); after recovery of memory or a '
              'flip inside a prefetch iteration both cached and uncached behaviour are accepted, wrong values never.'),
+    'C11': dict(
+        level='fault_enumeration', ref='4 (C11)',
+        technique='deterministic simulation with fault injection: crash points of a forked cache writer enumerated '
+                  '(after every completed access) and sampled (any Python line of core.py / diskcache), lifecycle '
+                  'history machine with disk-full and store-error faults, reference model of the directory',
+        text='A forked child fills the cache through the real DiskCacheDataset + diskcache + sqlite on a temporary '
+             'directory, acknowledges each completed access on a pipe and is killed with os._exit(9) at an enumerated '
+             'or sampled line step; the parent reopens with reuse=True and every acknowledged index must be served '
+             'with zero upstream calls and every value must be right. Lifecycle histories (open/access/copy/release/'
+             'reopen with all reuse/clear combinations, disk nearly full / full, failing stores) are judged against '
+             'a model of directory contents, handles and sharing groups.',
+        note='Kill granularity is a Python line; a kill inside a C-level sqlite call, power loss and real disk '
+             'exhaustion are not simulated; at most one clear=True wrapper is open on the directory at a time.'),
     'C12': dict(
         level='exploration', ref='4 (C12)',
         technique='deterministic simulation: seeded / exhaustive interleaving of the next() calls of 1-3 '
